@@ -74,7 +74,8 @@ class TableReaderBase(list):
 
     @param x Value for which index should be found
     @return Index into this collection for list value that has x component less than search x"""
-    if x< self[0][0] or x> self[-1][0]:
+    if len(self) == 0 or x< self[0][0] or x> self[-1][0]:
+      # (no rows at all: every x is outside the tabulated range)
       return None
 
     idx = bisect.bisect_left(self.xproxy, x)
